@@ -95,6 +95,33 @@ CHECKS = {
             "(lists and ndarrays, three dtypes); CubicHermiteInterp end values/slopes bit-exact and random cubics (scalar, vector, matrix valued, both "
             "orientations) reproduced to conditioning-scaled rounding inside and outside the interval, gradient = derivative; production look-ups checked in situ.",
             "Exhaustive for the stated small scope (exhaustive:true), exploration for the cubics.", "4/C17"),
+    "C15": ("exploration", "runtime oracle on return values of the real solvers on systems with known roots / known absence of roots + record-only wrapper on production stage solves",
+            "nonlinear_roots (both dispatch paths), hybrj and newtontrustregion on diagonally dominant, singular-at-root, rootless, flat-asymptote and badly scaled "
+            "systems, n=1..12, array shapes, with/without user Jacobian, good/bad/far guesses, three tolerances: success => residual <= 20*tol*(n+|x|)*max(1,|J|) "
+            "and shape preserved, otherwise failure must be reported (flag or LinAlgError/ValueError); every successful stage solve of real implicit integrations "
+            "is checked in situ.",
+            "Exploration; KF10 (built-in dogleg claims success on step/trust-region criterion) is an open known finding.", "4/C15"),
+    "C16": ("exploration", "runtime oracle against analytic Jacobians + history monitor on DiffRHS with sentinel user Jacobians",
+            "JacobianWrapper on random smooth and linear maps R^n->R^m with vector/matrix shapes, points near 0 and large, base orders 2..7, flat and shaped "
+            "layouts; DiffRHS.jac under random histories of jac/hook/unhook/assign/attribute with a time-dependent right-hand side and repeated times: user "
+            "Jacobians (sentinel values) returned whenever attached, otherwise the derivative at the requested (t,y); njev increments once per request.",
+            "Exploration; FD thresholds 1e-8 (direct) / 1e-9 (through DiffRHS) relative to |J|+1, linear maps at 1e4*eps.", "4/C16"),
+    "C18": ("exploration", "runtime oracle on the facade's return value against the underlying system, the object API (bit-equality) and scipy.integrate.solve_ivp",
+            "solve_ivp with methods by name or class, vector and matrix states, both span directions, t_eval (none, inner, with end points, unsorted, repeated), "
+            "args tuples, max_step, first_step, tolerances, dense output, events: shapes, pairing via a clock component, first column, requested times, args "
+            "binding, max_step bound on recorded steps, facade fields = ode_system's, trajectory bit-equal to the object API with the same settings, agreement "
+            "with scipy DOP853.",
+            "Exploration; 'exactly those times' read up to landing rounding (64 eps).", "4/C18"),
+    "C19": ("exploration", "reference-model monitor: Python-list sequence semantics and nearest-sample model on recorded grids",
+            "Uniform and adaptive, forward and backward, continued trajectories: every integer index in [-len-2,len+2] vs a list of the recorded rows, iteration, "
+            "time look-ups inside/outside the range (dense: bit-equal sol(t); otherwise nearest recorded sample), whole-run and partial time slices.",
+            "Exploration; ties in 'nearest' may go either way.", "4/C19"),
+    "C20": ("exploration", "runtime counters: independent completion counter in the user function, class-level wrapper on DiffRHS.jac, callback log, step() attempts log",
+            "Explicit, FSAL, implicit (finite-difference and user Jacobian), splitting and Richardson methods with events, dense output, forced rejections, injected "
+            "failures and resets: nfev equals completed rhs calls at every quiescent point and inside every callback (0 after reset), njev equals completed "
+            "Jacobian requests, callbacks run in order after a new visible row once per recorded step (terminal landings share one), a dt assigned in a callback "
+            "is the first attempt of the next step.",
+            "Exploration; njev may count since construction or since the last reset.", "4/C20"),
 }
 
 NOT_YET = {}
